@@ -6,14 +6,14 @@ constant must say which): applying a patch without flipping its constant — or 
 namespace Dawgs.C07.Repair
 
 /-- fix1: format.go writes `ns.` for every namespace component of a function invocation (old: `nsfn(…)`) -/
-def namespaceDot : Bool := false
+def namespaceDot : Bool := true
 /-- fix2: `*n` without `..` is the exact length n..n (old: read as `*n..`) -/
-def exactHops : Bool := false
+def exactHops : Bool := true
 /-- fix3: one Negation per NOT token (old: ONE Negation whatever the number); format.go writes the inner one in parentheses -/
-def nestedNot : Bool := false
+def nestedNot : Bool := true
 /-- fix5: a chained property lookup in SET / REMOVE (`n.a.b`) is reported as unsupported (old: the last key silently wins) -/
-def chainedLookupRejected : Bool := false
+def chainedLookupRejected : Bool := true
 /-- fix6: newTokenLiteralIterator skips SP tokens (old: a comment or U+001C…U+001F between operands is read as an operator) -/
-def spNotOperator : Bool := false
+def spNotOperator : Bool := true
 
 end Dawgs.C07.Repair
